@@ -4,7 +4,7 @@ From V Require Import Base.Strings Base.Result Model.Registry Model.Settings Mod
   Model.TypePath Model.Derives Model.Generate Model.Emit Model.Equal Model.Shape Model.Renumber
   Model.Families Model.Inputs Model.ExamplesTG Model.ExamplesFam
   Proofs.GenProofs Proofs.SortDedup Proofs.ItemsCanonical Proofs.RenumberPerm Proofs.Equivariance
-  Proofs.PermFamilies Proofs.ExamplesC17.
+  Proofs.PermFamilies Proofs.Restriction Proofs.ExamplesC17.
 Import ListNotations.
 
 (** keep-first: the item at an occupied path is never replaced, whatever follows in the registry *)
@@ -178,7 +178,7 @@ Print Assumptions C17_recursive_derives_invariant.
       for every settings value built by the real builders;
     - both generations are [Ok].  NOT proved: "[Ok] iff [Ok]" (needs [types_equal] to be an
       equivalence on every family, false on the pinned tree: F1/F3/F14).
-    The restriction half (retain()-ed sub-registries) is not proved. *)
+    The restriction half is [C17_restriction_tokens] below. *)
 Theorem C17_permutation_tokens :
   forall pi r s, renumbering (N.of_nat (List.length r)) pi ->
     forall teq teq' m1 m2,
@@ -221,3 +221,79 @@ Theorem C17_docs_hypothesis_needed :
                   emit_module s m1 <> emit_module s m2.
 Proof. exact docs_hypothesis_needed. Qed.
 Print Assumptions C17_docs_hypothesis_needed.
+
+(** ** restriction (Proofs/Restriction.v).  [restrict pi k r = firstn k (renumber pi r)]
+    (Model/Renumber.v): the retained entries are moved to the front by the renumbering [pi]
+    (the id map of retained entries) and the registry is cut after [k] entries - the shape of
+    every sub-registry produced by scale-info's [retain]. *)
+
+(** a successful path resolution / IR construction / traversal in a prefix of the registry is
+    the same successful one in the whole registry (more entries and more fuel never hurt) *)
+Theorem C17_resolve_prefix :
+  forall r1 r2 s (f1 f : nat) id isf parents orig t,
+    (f1 <= f)%nat -> resolve_rec r1 s f1 id isf parents orig = Ok t ->
+    resolve_rec (r1 ++ r2) s f id isf parents orig = Ok t.
+Proof. exact resolve_rec_prefix. Qed.
+Print Assumptions C17_resolve_prefix.
+
+Theorem C17_create_type_ir_prefix :
+  forall r1 r2 s t flat o,
+    create_type_ir r1 s t flat = Ok o -> create_type_ir (r1 ++ r2) s t flat = Ok o.
+Proof. exact create_type_ir_prefix. Qed.
+Print Assumptions C17_create_type_ir_prefix.
+
+Theorem C17_collect_prefix :
+  forall r1 r2 id v, collect_type_ids r1 id = Ok v -> collect_type_ids (r1 ++ r2) id = Ok v.
+Proof. exact collect_type_ids_prefix. Qed.
+Print Assumptions C17_collect_prefix.
+
+(** cutting a registry after a prefix keeps the item tokens of every path the prefix still
+    generates.  No consistency hypothesis: the kept item is the IR of the same entry in both
+    runs.  [no_outside_roots]: no cut-off entry has a path with a recursive derive rule (such
+    settings are invalid for the sub-registry, C11) *)
+Theorem C17_prefix_tokens :
+  forall r1 r2 s teq1 teq m1 m,
+    derives_functional s -> no_outside_roots (dr_recursive (s_dreg s)) r2 ->
+    generate r1 s teq1 = Ok m1 -> generate (r1 ++ r2) s teq = Ok m ->
+    forall p id ir1, items_get m1 p = Some (id, ir1) ->
+      exists ir, items_get m p = Some (id, ir) /\ type_ir_tokens s ir1 = type_ir_tokens s ir.
+Proof. exact prefix_tokens. Qed.
+Print Assumptions C17_prefix_tokens.
+
+(** generation stays successful under renumbering when the comparison oracle is replaced by
+    the one that judges everything equal (used as the intermediate run below) *)
+Theorem C17_generate_ok_renumber :
+  forall pi r s, renumbering (N.of_nat (List.length r)) pi ->
+    forall teq m, generate r s teq = Ok m ->
+      exists m2, generate (renumber pi r) s teq_true = Ok m2.
+Proof. exact generate_ok_renumber. Qed.
+Print Assumptions C17_generate_ok_renumber.
+
+(** C17_restriction (items): every item generated from the restricted registry has the tokens
+    of the item generated at the same path from the full registry.  Same hypotheses on [r] as
+    [C17_permutation_tokens], plus [no_outside_roots] for the dropped entries; both runs [Ok]
+    with arbitrary comparison oracles.  Not proved: the [describe] / [has_type] clauses of
+    DESIGN's C17_restriction, and that scale-info's [retain] has the form [restrict pi k]
+    (validated per use by the harness: closed, ids = positions, mu consistent). *)
+Theorem C17_restriction_tokens :
+  forall pi k r s teq teq' m m',
+    renumbering (N.of_nat (List.length r)) pi ->
+    skeleton_consistent r s -> docs_consistent r s -> derives_functional s ->
+    no_outside_roots (dr_recursive (s_dreg s)) (dropped pi k r) ->
+    generate r s teq = Ok m ->
+    generate (restrict pi k r) s teq' = Ok m' ->
+    forall p id' ir', items_get m' p = Some (id', ir') ->
+      exists id ir, items_get m p = Some (id, ir) /\ type_ir_tokens s ir' = type_ir_tokens s ir.
+Proof. exact restriction_tokens. Qed.
+Print Assumptions C17_restriction_tokens.
+
+Theorem C17_restriction_hypotheses_satisfiable :
+  exists pi k r s,
+    renumbering (N.of_nat (List.length r)) pi /\
+    skeleton_consistentb r s = true /\ docs_consistentb r s = true /\ derives_functionalb s = true /\
+    no_outside_rootsb (dr_recursive (s_dreg s)) (dropped pi k r) = true /\
+    dr_recursive (s_dreg s) <> [] /\ (List.length (restrict pi k r) < List.length r)%nat /\
+    is_ok (generate r s (types_equal r)) = true /\
+    is_ok (generate (restrict pi k r) s (types_equal (restrict pi k r))) = true.
+Proof. exact restriction_hypotheses_satisfiable. Qed.
+Print Assumptions C17_restriction_hypotheses_satisfiable.
